@@ -346,6 +346,15 @@ func runC19Reads(t fataler, c c19Case, concurrent bool) (string, c19Result) {
 			}
 		}
 		if !lateNow {
+			if (i+len(r.Doc))%3 == 1 && !concurrent {
+				// a Ping of the peer in front of the document, its frame arriving in two pieces (the split inside the payload)
+				b := lc.Peer.prep(ref.Frame{Fin: true, Opcode: ref.OpPing, Payload: []byte("ping between two documents")}).Encode()
+				k := len(b) - 9
+				lc.Peer.sendRaw(b[:k])
+				e.sleep(time.Millisecond)
+				lc.Peer.sendRaw(b[k:])
+				evid.For("C19").Class("split-ping-in-front-of-a-document", 1)
+			}
 			sendFrames()
 		}
 		target := newTarget(r.Target)
